@@ -4,7 +4,7 @@ import re
 import types
 import vf
 vf.use_repo()
-from ak.ppobj import PPTable  # noqa: E402
+from ak.ppobj import FieldType, PPTable  # noqa: E402
 from vf import tables as T  # noqa: E402
 from vf.core import sig_of  # noqa: E402
 
@@ -349,8 +349,50 @@ def unknown_structure_case(ctx, rng):
                       {"stage": "no structure", "fmt": reported, "before": base[:200], "after": after_setter[:200]}, case)
 
 
+def corner_tables_case(ctx, rng):
+    """two corners of the format grammar: a field whose name is a number (its column description "5:4" reads like
+    record limits), and width bounds that come from the field type and lie beyond the usual maximum"""
+    ctx.evaluated()
+    kind = rng.choice(["digit-name", "wide-type"])
+    if kind == "digit-name":
+        name = rng.choice(["5", "10", "2024"])
+        width = rng.choice([3, 4, 15])
+        recs = [(rng.choice([1, 22, 333333, "abcdefgh"]),) for _ in range(rng.randint(1, 6))]
+        mk = lambda fmt: PPTable(list(recs), fields=[name], fmt=fmt)
+        fmt0 = "%s:%d%s" % (name, width, rng.choice([";*", ";", ";2:1"]))
+    else:
+        big = rng.choice([1200, 1500])
+        ft = lambda: {'note': FieldType(4, 2000)}
+        recs = [(1, "x" * rng.choice([3, big])), (2, "y" * big), (3, "short")]
+        mk = lambda fmt: PPTable(list(recs), fields=['id', 'note'], fmt=fmt, fields_types=ft())
+        fmt0 = rng.choice(["id,note", "note", "id:3,note"])
+    printed_first = rng.random() < 0.5
+    case = {"corner_table": kind, "fmt": fmt0, "printed_first": printed_first}
+    try:
+        t = mk(fmt0)
+        if printed_first:
+            T.render(t)
+        reported = str(t.fmt)
+        base = T.render(t)
+        rebuilt = T.render(mk(reported))
+        t.fmt = reported
+        after_setter = T.render(t)
+    except Exception as err:
+        ctx.violation("table-operation-raises", {"stage": kind, "type": type(err).__name__, "msg": str(err)[:200]}, case)
+        return
+    ctx.count("corner_tables_checked")
+    if rebuilt != base:
+        ctx.violation("constructor-with-reported-format-renders-differently",
+                      {"stage": kind, "fmt": reported, "table": base[:120], "rebuilt": rebuilt[:120]}, case)
+    if after_setter != base:
+        ctx.violation("setter-with-reported-format-changes-rendering",
+                      {"stage": kind, "fmt": reported, "before": base[:120], "after": after_setter[:120]}, case)
+
+
 def run_shard(ctx):
     for i in range(ctx.cases):
+        if i % 5 == 2:
+            corner_tables_case(ctx, ctx.rng(i, "corner"))
         if i % 5 == 4:
             for k in range(4):
                 odd_names_case(ctx, ctx.rng(i, "odd%d" % k))
@@ -363,6 +405,11 @@ def run_shard(ctx):
 
 
 def replay(ctx, case):
+    if case.get("corner_table"):
+        import random
+        for k in range(100):
+            corner_tables_case(ctx, random.Random(k))
+        return
     if case.get("unknown_structure"):
         import random
         for k in range(100):
